@@ -167,7 +167,7 @@ def run(tier, seed):
         if r.returncode != 0:
             print("C19: INCONCLUSIVE - `any 1` failed to build its index: %s" % r.stderr.decode()[-500:])
             return 2
-        n = 2400 if tier == "quick" else 100000
+        n = 6400 if tier == "quick" else 100000
         payloads = [{"seed": seed, "shard": i, "n": n // NCPU, "facts": ty, "vdriver": b["vdriver"], "any": b["any"], "home": home} for i in range(NCPU)]
         acc = run_shards(shard, payloads)
     finally:
